@@ -34,6 +34,10 @@ tdir="${MUTANT_TARGET:-/tmp/mutant-target}"
 mkdir -p "$copy" "$tdir"
 rsync -a --exclude target --exclude .git /repo/ "$copy/"
 ( cd "$copy" && git init -q . >/dev/null 2>&1; git apply "$patch" ) || { echo "PATCH DOES NOT APPLY: $patch"; rm -rf "$copy" "$out"; exit 2; }
+# cargo decides freshness by mtime: a file that went BACK to its original
+# content (older mtime) after a previous patched copy would not be rebuilt.
+# Make every source newer than any earlier build in the shared target dir.
+find "$copy" -type f \( -name '*.rs' -o -name '*.toml' \) -exec touch {} +
 trap 'rm -rf "$copy" "$out"' EXIT
 for p in "$@"; do
   unshare -m bash -c "mount --bind '$copy' /repo && VERIF_OUT_DIR='$out' VERIF_TARGET_DIR='$tdir' /verif/check $p ${MUTANT_ARGS:-}" >"$out/$p.log" 2>&1
